@@ -69,6 +69,15 @@ type Sim struct {
 	blockedSites  []string
 }
 
+// LivelockOutside is the panic raised when code running outside the scheduler (a set-up or a
+// recovery phase) passes the step cap: it yields forever without finishing.
+type LivelockOutside struct{}
+
+func (LivelockOutside) Error() string {
+	return "sim: step cap exceeded outside tasks (livelock in a set-up or recovery phase)"
+}
+func (LivelockOutside) String() string { return LivelockOutside{}.Error() }
+
 // Deadlocked is what a task panics with when the run is found deadlocked.
 type Deadlocked struct{ Sites string }
 
@@ -202,7 +211,7 @@ func (s *Sim) yield(site string, blocked bool) {
 	}
 	if t == nil {
 		if s.Seq > 4*s.MaxSteps {
-			panic("sim: step cap exceeded outside tasks (livelock in a set-up or recovery phase)")
+			panic(LivelockOutside{})
 		}
 		return
 	}
